@@ -215,9 +215,10 @@ func TestWitnessOperators(t *testing.T) {
 			return owEnd(nil, s)
 		}},
 		{"ToMapIWithContext", []int{0}, func(p int) func(Observable[int]) []string {
+			op := ToMapI(func(v int, i int64) (int, string) { return v % 2, fmt.Sprintf("%d@%d", v, i) }) // one operator value for every script (C12)
 			return func(src Observable[int]) []string {
 				var tr []string
-				ToMapI(func(v int, i int64) (int, string) { return v % 2, fmt.Sprintf("%d@%d", v, i) })(src).Subscribe(NewObserver(
+				op(src).Subscribe(NewObserver(
 					func(m map[int]string) {
 						var ks []int
 						for k := range m {
